@@ -199,6 +199,11 @@ def gen_open_case(rng, idx=None):
         else:
             t0 = rng.choice(FAR) + 0.25 * rng.randint(0, 4000)
         resources = rng.choice(['cbf_dev_1', 'cbf_dev_3', 'cbf_1', 'cbf_2'])
+        # the subarray's resource list names the correlator among antennas and other proxies, in any order
+        if rng.random() < 0.6:
+            others = rng.sample(['m000', 'm001', 'anc_1', 'sdp_1', 'sdp_dev_2', 'ptuse_1'], rng.randint(1, 3))
+            others.insert(rng.randint(0, len(others)), resources)
+            resources = ','.join(others)
         product = rng.choice(['c856M4k', 'c856M4k', 'c856M1k', 'bc856M4k', 'c856M32k', 'c544M4k'])
         known = rng.random() < 0.75
         off = 0.0 if rng.random() < 0.5 else rng.choice([0.25, -0.25, 1.0, -1.0, 2.5, -3.75, 0.5, -0.5])
